@@ -1,6 +1,6 @@
 SPECIFICATION Spec
 CONSTANTS
-  Tokens = {"TEXT", "WS", "ACT", "IF", "ELSE", "ELSEIF", "RANGE", "BLOCK", "CONTENT", "YIELDC", "TRY", "CATCH", "END", "EXTENDS", "IMPORT", "EXTENDS_BADSTR", "IMPORT_BADSTR", "EXTENDS_BROKEN", "IMPORT_BROKEN", "COMMENT", "OPEN_ACTION", "OPEN_COMMENT", "OPEN_STRING"}
+  Tokens = {"TEXT", "WS", "ACT", "IF", "ELSE", "ELSEIF", "RANGE", "BLOCK", "CONTENT", "YIELDC", "TRY", "CATCH", "END", "EXTENDS", "IMPORT", "EXTENDS_BADSTR", "IMPORT_BADSTR", "EXTENDS_BROKEN", "IMPORT_BROKEN", "COMMENT", "OPEN_ACTION", "OPEN_COMMENT", "OPEN_COMMENT_OVERLAP", "OPEN_STRING"}
   MaxLen = 4
   Emit = TRUE
 INVARIANTS PlainAccepted SurplusEnd EmitVec
